@@ -12,9 +12,13 @@
 //            float double,<bit pattern hex>:<expected rendering>
 // snapshot: live streams in id order, "o<id>:<size>:<bytes>:<where>", bytes = hex up to 32 bytes, else #<fnv-1a of the bytes>,
 //      where = S (raw_buffer() inside this very object) | A<id>/Z<id> (inside ANOTHER live/dead stream) | H<n> (elsewhere: heap block,
-//      numbered by first appearance in this snapshot); "-" if none alive
+//      numbered by first appearance in this snapshot); "-" if none alive;
+//      bytes = !dangling / !oversize when raw_buffer()[0,size()) is not inside live storage: nothing is read, the history stops with end=abandoned
 #include "st_common.hpp"
 #include <sanitizer/lsan_interface.h>
+// exported by the ASan runtime (gcc ships no <sanitizer/allocator_interface.h>)
+extern "C" int __sanitizer_get_ownership(const volatile void *p);
+extern "C" size_t __sanitizer_get_allocated_size(const volatile void *p);
 #include <climits>
 #include <cfloat>
 #include <cmath>
@@ -117,30 +121,42 @@ struct SPool {
     bool live[NOBJ] = {};
     SS *at(int o) { return reinterpret_cast<SS *>(raw[o]); }
 
+    bool insane = false;   // some live stream's (raw_buffer(), size()) cannot be read safely: the history is abandoned
+
+    // can raw_buffer()[0,size()) of stream o be read?  "" = yes; otherwise what is wrong (nothing is read then, so a broken
+    // stream shows up as a readable observation instead of a sanitizer abort of the harness)
+    std::string unsafe(int o, std::string &where, std::vector<const void *> &blocks) {
+        SS *s = at(o);
+        const char *p = s->raw_buffer(); size_t n = s->size();
+        const unsigned char *pc = reinterpret_cast<const unsigned char *>(p);
+        for (int q = 0; q < NOBJ; ++q)
+            if (pc >= raw[q] && pc < raw[q] + sizeof(SS)) {
+                where = q == o ? "S" : (live[q] ? "A" : "Z") + std::to_string(q);
+                return n > (size_t)(raw[q] + sizeof(SS) - pc) ? "!oversize" : "";
+            }
+        size_t k = 0; while (k < blocks.size() && blocks[k] != p) ++k;
+        if (k == blocks.size()) blocks.push_back(p);
+        where = "H" + std::to_string(k);
+        if (p == nullptr || !__sanitizer_get_ownership(p)) return "!dangling";
+        if (n > __sanitizer_get_allocated_size(p)) return "!oversize";
+        return "";
+    }
+
     std::string snapshot() {
         std::string out; std::vector<const void *> blocks;
         for (int o = 0; o < NOBJ; ++o) {
             if (!live[o]) continue;
-            SS *s = at(o);
-            const char *p = s->raw_buffer();
-            const unsigned char *pc = reinterpret_cast<const unsigned char *>(p);
-            std::string where;
-            if (pc >= raw[o] && pc < raw[o] + sizeof(SS)) where = "S";
-            else {
-                for (int q = 0; q < NOBJ && where.empty(); ++q)
-                    if (q != o && pc >= raw[q] && pc < raw[q] + sizeof(SS)) where = (live[q] ? "A" : "Z") + std::to_string(q);
-                if (where.empty()) {
-                    size_t k = 0; while (k < blocks.size() && blocks[k] != p) ++k;
-                    if (k == blocks.size()) blocks.push_back(p);
-                    where = "H" + std::to_string(k);
-                }
-            }
-            size_t n = s->size();
+            std::string where, bad = unsafe(o, where, blocks);
+            size_t n = at(o)->size();
+            if (!bad.empty()) insane = true;
             if (!out.empty()) out += ",";
-            out += "o" + std::to_string(o) + ":" + std::to_string(n) + ":" + repr(p, n) + ":" + where;
+            out += "o" + std::to_string(o) + ":" + std::to_string(n) + ":" + (bad.empty() ? repr(at(o)->raw_buffer(), n) : bad) + ":" + where;
         }
         return out.empty() ? "-" : out;
     }
+
+    // forget every stream without running destructors (after an insane snapshot a destructor may release a foreign block)
+    void abandon() { for (int o = 0; o < NOBJ; ++o) live[o] = false; insane = false; }
 
     // runs one prepared operation; `threw` reports a unicode_error; bad_alloc (fault mode) propagates
     void invoke(Prep &p, long k, bool &threw, std::string &result) {
@@ -223,8 +239,16 @@ struct SPool {
     void destroy_all() { CountScope scope; for (int o = 0; o < NOBJ; ++o) if (live[o]) { at(o)->~SS(); live[o] = false; } }
 };
 
+static SPool pool;       // storage reused across cases; always left empty
+static bool lsan_off;    // blocks of an abandoned history stay allocated: LeakSanitizer's verdict is void from then on
+
+static std::string abandon_history(std::string &out, long live_before) {
+    pool.abandon(); lsan_off = true; alloc_ctl().live = live_before;
+    out += "end=abandoned";
+    return out;
+}
+
 static std::string run_hist(const Args &a) {
-    static SPool pool;   // storage reused across cases; always left empty
     std::string out; int step = 0;
     std::vector<std::string> ops = split(a.get("ops"), ';');
     out.reserve(4096);
@@ -239,6 +263,7 @@ static std::string run_hist(const Args &a) {
         if (threw) out += "x" + std::to_string(step) + "=unicode_error ";
         if (!result.empty()) out += "r" + std::to_string(step) + "=" + result + " ";
         out += "s" + std::to_string(step) + "=" + pool.snapshot() + " ";
+        if (pool.insane) return abandon_history(out, live_before);
     }
     if (is_fault) {
         long k = (long)a.num("k");
@@ -252,6 +277,7 @@ static std::string run_hist(const Args &a) {
             catch (...) { res = "other"; }
         }
         out += "f=" + res + " sf=" + pool.snapshot() + " ";
+        if (pool.insane) return abandon_history(out, live_before);
     }
     pool.destroy_all();
     // leak accounting: every block the library obtained through operator new during the history must be gone now
@@ -259,7 +285,7 @@ static std::string run_hist(const Args &a) {
     ops.clear(); ops.shrink_to_fit();
     static unsigned long counter = 0;
     bool leak = alloc_ctl().live != live_before;
-    if (!leak && (++counter % 1024) == 0) leak = __lsan_do_recoverable_leak_check() != 0;
+    if (!leak && !lsan_off && (++counter % 1024) == 0) leak = __lsan_do_recoverable_leak_check() != 0;
     alloc_ctl().live = live_before;
     out += std::string("end=") + (leak ? "leak" : "clean");
     return out;
